@@ -13,7 +13,8 @@ RULE = ("A case is (byte stream of 1..4 V3 packets with optional marker-free gar
         "Part 'client_write_between_segments' works at LAN level on an authenticated V3 connection: the device has "
         "sent only the first k bytes of a report when LAN.send writes (and re-writes) its request; the rest arrives "
         "with the response; every report must be returned exactly once, before the response. "
-        "Distinct = distinct (stream, cuts, gap); non-trivial = at least one cut point or garbage byte or >=2 packets.")
+        "Distinct = distinct (stream, cuts, gap); non-trivial = at least one cut point or garbage byte or >=2 packets."
+        " Later additions: blocking reads cancelled before the stream, 300-6000 packets in one segment, every packet size 0-1100 (3000 in thorough).")
 ASSUMPTIONS = [
     "SimTransport reproduces the asyncio.Transport contract msmart relies on (DESIGN 1.3)",
     "packets are HANDSHAKE_RESPONSE-typed so read() returns the payload without a key; the reassembly code path "
